@@ -70,6 +70,7 @@ type Struct struct {
 	Trailing bool     // `struct { // comment`
 	Hands    []Hand
 	Derived  string // `type Name Derived` (fields are those of the struct named Derived)
+	TypeParamsJoined bool // `[K, V any]` instead of `[K any, V any]` (all constraints equal)
 	Origin   string // provenance: seed name or "grammar"
 }
 
@@ -107,6 +108,12 @@ func (s *Struct) TypeParamsDecl() string {
 		return ""
 	}
 	var ps []string
+	if s.TypeParamsJoined {
+		for _, p := range s.TParams {
+			ps = append(ps, p.Name)
+		}
+		return "[" + strings.Join(ps, ", ") + " " + s.TParams[0].CSrc + "]"
+	}
 	for _, p := range s.TParams {
 		ps = append(ps, p.Name+" "+p.CSrc)
 	}
